@@ -26,12 +26,14 @@ def oracle_pass(chk, scripts, traces, props, pristine=False):
             continue
         cfg = sc['config']
         changed = False
+        prevg = None
         for rec in recs:
             ev = sc['events'][rec['seq']] if rec['seq'] >= 0 else {}
             if ev.get('op') == 'Reconfigure' and rec['reply']['class'] == 'ok':
                 cfg = ev['config']
                 changed = changed or ev.get('tag') == 'new'
-            fs = fsoracle.ta_state_findings(rec, cfg, sc['_machine'])
+            fs = fsoracle.ta_state_findings(rec, cfg, sc['_machine'], prevg)
+            prevg = {g['id']: g for g in ((rec.get('ta') or {}).get('grants') or [])}
             if pristine and rec.get('tag') == 'quiescent':
                 fs += fsoracle.ta_pristine_findings(recs[0], rec, not changed)
             for f in fs:
@@ -59,7 +61,7 @@ def run(tier, seed, replay=None):
     scripts = gen_scripts(chk, tier, zoo, paths)
     traces = run_histories(chk, binary, [{k: v for k, v in s.items() if not k.startswith('_')} for s in scripts])
     nfind = oracle_pass(chk, scripts, traces, ('C01',))
-    stats, bad = ta_correspondence(chk, traces)
+    stats, bad = ta_correspondence(chk, traces, scripts=scripts)
     nt = sum(1 for r in traces.values() if nontrivial_history(r))
     events = sum(len(r) for r in traces.values())
     chk.samples += [{'history': s['name'], 'machine': s['_machine']['name'], 'config': s['config'], 'first_events': [e['op'] for e in s['events'][:12]]} for s in scripts[:2]]
